@@ -52,6 +52,80 @@ func CallVal(t *T, a int) int {
 func Bump() {
 	base += 1000
 }
+
+type Shape interface {
+	Area() int
+}
+
+func (t *T) Area() int {
+	return t.v * 2
+}
+
+var last any
+var name string
+var items []int
+var tab map[string]int
+var curT *T
+var shape Shape
+var flag bool
+var ratio float64
+var small byte
+var fn func(int) int
+
+func Remember(a int) {
+	last = a
+	name = "set"
+	items = append(items, a)
+	if tab == nil {
+		tab = map[string]int{}
+	}
+	tab["k"] = a
+	curT = &T{v: a}
+	shape = &T{v: a}
+	flag = true
+	ratio = 2.5
+	small = 200
+	fn = compute
+}
+
+func Recall() int {
+	r := len(items) * 1024
+	if last != nil {
+		r += 1
+	}
+	if name == "set" {
+		r += 2
+	}
+	if flag {
+		r += 4
+	}
+	if curT != nil {
+		r += 8
+	}
+	if tab != nil {
+		r += 16
+	}
+	if ratio > 2 {
+		r += 32
+	}
+	if small == 200 {
+		r += 64
+	}
+	if shape != nil {
+		r += 128
+	}
+	if fn != nil {
+		r += 256
+	}
+	return r
+}
+
+func RecallVal() int {
+	if curT == nil {
+		return -1
+	}
+	return tab["k"]*3 + curT.v + shape.Area() + items[len(items)-1]
+}
 `, v.b, v.c, v.m, v.a)
 }
 
@@ -77,9 +151,22 @@ func verifC17() {
 			verifAssert(rets[0].t == TypeInt32 && rets[0].num == float64(want), id+"/value")
 		}
 	}
+	remembered, nItems, lastA := false, int32(0), int32(0)
+	recall := func(id string) {
+		want := nItems * 1024
+		if remembered {
+			want += 511
+		}
+		rets, err := vm.Call("main.Recall", 1)
+		call1(rets, err, want, id)
+		if remembered {
+			rets, err = vm.Call("main.RecallVal", 1)
+			call1(rets, err, lastA*3+lastA+lastA*2+lastA, id+"/values")
+		}
+	}
 	for s := 0; s < steps; s++ {
 		a := verifInt32(verifName("a", s))
-		switch verifChoice(verifName("act", s), 8) {
+		switch verifChoice(verifName("act", s), 10) {
 		case 0: // reload (possibly the same version)
 			k := verifChoice(verifName("ver", s), len(verifC17Versions))
 			if !load(k) {
@@ -123,12 +210,19 @@ func verifC17() {
 				rets, err := vm.Call("main.CallVal", 1, inst, Int32(a))
 				call1(rets, err, instV*v.c+a, "C17/method-on-existing-instance-runs-new-code")
 			}
+		case 7:
+			_, err := vm.Call("main.Remember", 0, Int32(a))
+			verifAssert(err == nil, "C17/remember")
+			remembered, nItems, lastA = true, nItems+1, a
+		case 8:
+			recall("C17/uninitialised-variables-of-every-type-keep-their-values")
 		default:
 			_, err := vm.Call("main.Bump", 0)
 			verifAssert(err == nil, "C17/bump")
 			base += 1000
 		}
 	}
+	recall("C17/final/uninitialised-variables-of-every-type-keep-their-values")
 	// whatever was captured during the history must run the code of the version loaded last
 	if haveFv {
 		v := verifC17Versions[cur]
